@@ -340,6 +340,23 @@ def parity(rep):
             rep.ob("O3.4", "R17", wt, cnt == want, f"invert={flag}: path returning `{norm(p.end.value)[:50]}`",
                    f"the template is inverted {want}x when invert={flag}", {"inversions_on_path": cnt,
                                                                            "assumed": [f"{norm(t)[:40]}={s}" for t, s in p.assumed]}, node=p.end)
+            if flag and cnt == want:
+                # ... and the inverted graph is what the returned rule is built from (def-use along this path)
+                tainted = set()
+
+                def _dirty(e):
+                    return any((isinstance(c, ast.Call) and call_name(c) == "_invert_template") or (isinstance(c, ast.Name) and c.id in tainted) for c in ast.walk(e))
+                for st in p.stmts:
+                    if isinstance(st, ast.Assign):
+                        names = [x.id for t in st.targets for x in ast.walk(t) if isinstance(x, ast.Name)]
+                        if _dirty(st.value):
+                            tainted.update(names)
+                        else:
+                            tainted.difference_update(names)
+                used = p.end.value is not None and _dirty(p.end.value)
+                rep.ob("O3.4", "R17", wt, used, f"invert={flag}: `{norm(p.end.value)[:50]}`",
+                       "the rule that is returned is built from the inverted graph (not a ready-made rule that ignores it)",
+                       {"assumed": [f"{norm(t)[:40]}={s}" for t, s in p.assumed]}, node=p.end)
         rep.need("R17", n_ret, 2, f"return paths of _wrap_template with invert={flag}")
     sl = rep.f(SR, "SynReactor.smarts_list")
     pm = parent_map(sl.node)
@@ -558,6 +575,19 @@ def wiring(rep):
     first = (bad or und or [(stores[0], "")])[0]
     rep.ob("O3.6", "SRC", mp, ok, first[0], "the mappings are node-id dictionaries of this call's substrate and rule: they come from this call's search, or from a store whose key "
            "pins the concrete objects" + (f" ({first[1]})" if first[1] else ""), {"stores": len(stores), "roots": n_roots}, node=first[0])
+    # the substrate's atoms are numbered by ONE scheme (position in the SMILES): with use_index_as_atom_map a partially mapped substrate gets
+    # map numbers for labelled atoms and positions for the others - two atoms can receive the same id and are merged into one node
+    wi = rep.f(SR, "SynReactor._wrap_input")
+    s2g = [c for c in walk_local(wi.node) if isinstance(c, ast.Call) and call_name(c) == "smiles_to_graph"]
+    rep.need("SRC", len(s2g), 1, "smiles_to_graph call in _wrap_input")
+    for c in s2g:
+        v = kwarg(c, "use_index_as_atom_map")
+        okv = True if (v is None or is_const(v, False)) else (False if is_const(v, True) else None)
+        rep.ob("O3.6", "SRC", wi, okv, c, "substrate atoms get their node ids from one numbering scheme (use_index_as_atom_map stays off: map numbers and positions "
+               "are not mixed)", node=c)
+        v2 = kwarg(c, "drop_non_aam")
+        rep.ob("O3.6", "SRC", wi, True if (v2 is None or is_const(v2, False)) else (False if is_const(v2, True) else None), c,
+               "no substrate atom is dropped while parsing (drop_non_aam stays off)", node=c)
     ts = rep.f(SR, "SynReactor._to_smarts")
     defs = local_defs(ts.node)
     rets = [r for r in returns_of(ts.node) if isinstance(r.value, ast.JoinedStr)]
